@@ -123,6 +123,24 @@ package codegen
 //@ const StorageClassFunction 7
 //@ const StorageClassPushConstant 9
 //@ const StorageClassStorageBuffer 12
+//@ const DecorationBlock 2
+//@ const DecorationRowMajor 4
+//@ const DecorationColMajor 5
+//@ const DecorationArrayStride 6
+//@ const DecorationMatrixStride 7
+//@ const DecorationBuiltIn 11
+//@ const DecorationNoPerspective 13
+//@ const DecorationFlat 14
+//@ const DecorationCentroid 16
+//@ const DecorationSample 17
+//@ const DecorationNonWritable 24
+//@ const DecorationNonReadable 25
+//@ const DecorationLocation 30
+//@ const DecorationIndex 32
+//@ const DecorationBinding 33
+//@ const DecorationDescriptorSet 34
+//@ const DecorationOffset 35
+//@ const DecorationNonUniform 5300
 //@ const ExecutionModelVertex 0
 //@ const ExecutionModelFragment 4
 //@ const ExecutionModelGLCompute 5
@@ -321,3 +339,26 @@ package codegen
 //@   ghostcall collectGlobalVarsFromStatements visitedBlock
 //@   traverse stepmark 1 stmts ir.Block visitedBlock($)
 //
+//
+// ---- layout decorations (C07, C02) -------------------------------------------------------
+//
+// Vulkan requires every struct member of a buffer block to carry Offset, and every
+// matrix member - also behind any number of array levels - ColMajor and
+// MatrixStride = AlignOf(column vector) = 2w for 2 rows, 4w for 3 or 4 rows
+// (WGSL 14.4.1).
+//
+//@ func (*Backend).addMatrixLayoutIfNeeded
+//@   mode bv
+//@   tags C07 C02
+//@   at (*ModuleBuilder).AddMemberDecorate#1 assert [col-major] arg1 == structID && arg2 == memberIdx && arg3 == DecorationColMajor && !is(inner, ir.ArrayType)
+//@   at (*ModuleBuilder).AddMemberDecorate#2 assert [matrix-stride] arg1 == structID && arg2 == memberIdx && arg3 == DecorationMatrixStride && len(arg4) == 1 && arg4[0] == ite(mat.Rows == ir.Vec2, uint32(2), uint32(4)) * uint32(mat.Scalar.Width)
+//@   at return assert [seen-through-arrays] !is(inner, ir.ArrayType)
+//
+//@ func (*Backend).emitStructMemberDecorations
+//@   mode bv
+//@   tags C07 C02
+//@   at (*ModuleBuilder).AddMemberDecorate#1 assert [offset] arg1 == structID && arg2 == uint32(memberIndex) && arg3 == DecorationOffset && len(arg4) == 1 && arg4[0] == member.Offset
+//@   at (*ModuleBuilder).AddMemberDecorate#2 assert [col-major] arg1 == structID && arg2 == uint32(memberIndex) && arg3 == DecorationColMajor && !is(memberInner, ir.ArrayType)
+//@   at (*ModuleBuilder).AddMemberDecorate#3 assert [matrix-stride] arg1 == structID && arg2 == uint32(memberIndex) && arg3 == DecorationMatrixStride && len(arg4) == 1 && arg4[0] == ite(mat.Rows == ir.Vec2, uint32(2), uint32(4)) * uint32(mat.Scalar.Width)
+//@   loop 2 step [seen-through-arrays] !is(memberInner, ir.ArrayType)
+//@   loop 2 step [matrix-gets-decorated] true
